@@ -193,6 +193,9 @@ class WorstCaseEvaluator(Evaluator):
                 individual.costs.append(sum(sensitivity))
                 individual.costs_signed.insert(-1, sum(sensitivity))
 
+        self.individuals = []
+        self.to_evaluate = []
+
 
 class Generator(Operator):
     def __init__(self, parameters=None):
